@@ -31,7 +31,7 @@ def closedT (nf nv : Nat) : Task → Bool
 
 def closedA (nf nv : Nat) : Act → Bool
   | .init i e => decide (i < nv) && closedE nf nv e
-  | .mkfn i => decide (i < nv)
+  | .mkfn i fid => decide (i < nv) && decide (fid < nf)
   | .stmt s => closedS nf nv s
   | .callfn fid => decide (fid < nf)
 
@@ -76,7 +76,7 @@ theorem closedA_mono {nf nv nf' nv' : Nat} (h1 : nf ≤ nf') (h2 : nv ≤ nv') (
   | init i e =>
     simp only [closedA, Bool.and_eq_true, decide_eq_true_eq] at *
     exact ⟨by omega, closedE_mono h1 h2 e h.2⟩
-  | mkfn i => simp only [closedA, decide_eq_true_eq] at *; omega
+  | mkfn i fid => simp only [closedA, Bool.and_eq_true, decide_eq_true_eq] at *; omega
   | stmt s => exact closedS_mono h1 h2 s h
   | callfn fid => simp only [closedA, decide_eq_true_eq] at *; omega
 
@@ -268,8 +268,8 @@ theorem exec_ext (cs extra : List CBody) (nv : Nat) (z : List Int) (hcs : codeCl
     have h1 := run_ext cs extra nv z hcs fuel (.expr 0 0 e) r hr (by simpa [closedT] using ha.2)
     have hl := run_len cs fuel (.expr 0 0 e) r
     simp only [exec, h1, store_ext _ z i _ (by omega : i < (run cs fuel (.expr 0 0 e) r).2.cells.length)]
-  | mkfn i =>
-    simp only [closedA, decide_eq_true_eq] at ha
+  | mkfn i fid =>
+    simp only [closedA, Bool.and_eq_true, decide_eq_true_eq] at ha
     simp only [exec, store_ext _ z i _ (by omega : i < r.cells.length)]
   | stmt s =>
     have h1 := run_ext cs extra nv z hcs fuel (.stmts 0 0 [s]) r hr (by simpa [closedT, closedA] using ha)
